@@ -143,6 +143,7 @@ public:
             J.attribute("t", C.typeStr(V->getType()));
             J.attribute("local", V->hasLocalStorage());
             if (V->isStaticLocal()) J.attribute("staticlocal", true);
+            if (V->getTLSKind() != VarDecl::TLS_None) J.attribute("tls", true);
             if (V->isConstexpr()) J.attribute("constexpr", true);
             if (V->hasInit()) {
                 J.attribute("initstyle", V->getInitStyle() == VarDecl::CInit ? "c" : V->getInitStyle() == VarDecl::CallInit ? "call" : "list");
@@ -515,6 +516,22 @@ public:
                                     if (F->hasInClassInitializer() && F->getInClassInitializer())
                                         J.attributeArray("c", [&] { D.stmt(F->getInClassInitializer()); });
                                 });
+                            }
+                        });
+                        J.attributeArray("statics", [&] {
+                            for (auto *Dd : RD->decls()) {
+                                if (auto *VD = dyn_cast<VarDecl>(Dd)) {
+                                    if (!VD->isStaticDataMember()) continue;
+                                    J.object([&] {
+                                        J.attribute("name", VD->getNameAsString());
+                                        J.attribute("did", C.declId(VD));
+                                        J.attribute("t", C.typeStr(VD->getType()));
+                                        if (VD->isConstexpr()) J.attribute("constexpr", true);
+                                        D.loc(VD->getLocation());
+                                        if (VD->hasInit() && VD->getInit())
+                                            J.attributeArray("c", [&] { D.stmt(VD->getInit()); });
+                                    });
+                                }
                             }
                         });
                         J.attributeArray("typedefs", [&] {
